@@ -412,7 +412,8 @@ def run_case(ctx, case):
             if op in BIT_EXACT_ORDER:
                 same = arr.digest(numpy.ma.asarray(base.value)) == arr.digest(numpy.ma.asarray(res))
             else:
-                same = ref.compare(res, [None if c is None else Fraction(c) for c in arr.cells(base.value)], rel=1e-12) is None
+                # (single-precision fields are combined in single precision: the order of the fields moves the result by rounding)
+                same = ref.compare(res, [None if c is None else Fraction(c) for c in arr.cells(base.value)], rel=1e-6 if (dtypes and "float32" in dtypes) else 1e-12) is None
             if not same:
                 ctx.fail("%s:order-dependent:%s" % (op, rk), {"order": order, "n": n, "params": params})
         else:
